@@ -116,6 +116,8 @@ def run_case(case):
     for ev in sets:
         ev = tuple(sorted(ev))
         first, second = _split(ev)
+        if any(abs(a - b) <= 1e-12 for i, a in enumerate(second) for b in second[i + 1:]):
+            continue  # three mutually indistinguishable times cannot be spread over two observables (Pulser refuses twins inside one)
         if mode == "mixed" and not second:
             if len(first) < 2:
                 continue
